@@ -2,9 +2,15 @@ package main
 
 import (
 	"bytes"
+	"encoding/json"
 	"fmt"
 	"runtime/debug"
 	"strings"
+
+	"github.com/jf-tech/omniparser"
+	"github.com/jf-tech/omniparser/customfuncs"
+	"github.com/jf-tech/omniparser/extensions/omniv21"
+	"github.com/jf-tech/omniparser/transformctx"
 
 	"github.com/jf-tech/go-corelib/caches"
 
@@ -150,6 +156,31 @@ const c13ExtDyn = `{"parser_settings": {"version": "omni.2.1", "file_format_type
    "via_func": {"xpath_dynamic": {"custom_func": {"name": "concat", "args": [{"external": "value_path"}]}}}}}}}`
 const c13ExtDynInput = `[{"a": "A1", "b": "B1"}, {"a": "A2", "b": "B2"}]`
 
+// tenants with Extensions of their own: both bind the name `tag`, to different functions; tenant A also replaces the
+// built-in `upper`.  Next to them a schema on the built-in extension that uses the built-in functions of the same names.
+const c13ExtFuncs = `{"parser_settings": {"version": "omni.2.1", "file_format_type": "json"},
+ "transform_declarations": {"FINAL_OUTPUT": {"xpath": "/*", "object": {"id": {"xpath": "id"},
+   "t": {"custom_func": {"name": "tag", "args": [{"xpath": "id"}]}},
+   "u": {"custom_func": {"name": "upper", "args": [{"xpath": "name"}]}},
+   "l": {"custom_func": {"name": "lower", "args": [{"xpath": "name"}]}}}}}}`
+const c13BuiltinFuncs = `{"parser_settings": {"version": "omni.2.1", "file_format_type": "json"},
+ "transform_declarations": {"FINAL_OUTPUT": {"xpath": "/*", "object": {"id": {"xpath": "id"},
+   "u": {"custom_func": {"name": "upper", "args": [{"xpath": "name"}]}},
+   "l": {"custom_func": {"name": "lower", "args": [{"xpath": "name"}]}},
+   "c": {"custom_func": {"name": "concat", "args": [{"xpath": "id"}, {"const": "-"}, {"xpath": "name"}]}},
+   "k": {"custom_func": {"name": "coalesce", "args": [{"xpath": "missing"}, {"xpath": "name"}]}}}}}}`
+const c13ExtFuncsInput = `[{"id": "1", "name": "Alice"}, {"id": "2", "name": "bob"}, {"id": "3"}, {"id": "4", "name": "Chloé"}]`
+
+func tenantExtension(tenant string, replaceUpper bool) omniparser.Extension {
+	over := customfuncs.CustomFuncs{"tag": func(_ *transformctx.Ctx, s string) (string, error) { return tenant + ":" + s, nil }}
+	if replaceUpper {
+		over["upper"] = func(_ *transformctx.Ctx, s string) (string, error) { return tenant + "^" + strings.ToUpper(s), nil }
+	}
+	// (the way the repository's samples build an Extension's table: the exported tables first, the tenant's own last)
+	return omniparser.Extension{CreateSchemaHandler: omniv21.CreateSchemaHandler,
+		CustomFuncs: customfuncs.Merge(customfuncs.CommonCustomFuncs, v21.OmniV21CustomFuncs, over)}
+}
+
 func c13Corpus() ([]*corpusItem, error) {
 	items, err := multiRunCorpus(false)
 	if err != nil {
@@ -166,7 +197,25 @@ func c13Corpus() ([]*corpusItem, error) {
 		{Name: "c13/js-throw-last", Format: "xml", Schema: []byte(c13JSThrow), Input: []byte(c13JSThrowLastInput)},
 		{Name: "c13/ancestor-anchored-with-failing-records", Format: "xml", Schema: []byte(c13Ancestor), Input: []byte(c13AncestorInput)},
 	}
+	for _, tn := range []struct {
+		name  string
+		upper bool
+	}{{"A", true}, {"B", false}} {
+		tn := tn
+		extra = append(extra, &corpusItem{Name: "c13/ext-tenant-" + tn.name, Format: "json", Schema: []byte(c13ExtFuncs), Input: []byte(c13ExtFuncsInput),
+			mk: func() (omniparser.Schema, error) {
+				sch, err, p := newSchema([]byte(c13ExtFuncs), tenantExtension(tn.name, tn.upper))
+				if err == nil && p != "" {
+					err = fmt.Errorf("panic: %s", p)
+				}
+				return sch, err
+			}})
+	}
+	extra = append(extra, &corpusItem{Name: "c13/builtin-funcs", Format: "json", Schema: []byte(c13BuiltinFuncs), Input: []byte(c13ExtFuncsInput)})
 	for _, it := range extra {
+		if it.mk != nil {
+			continue
+		}
 		sch, err, p := newSchema(it.Schema)
 		if err != nil || p != "" {
 			return nil, fmt.Errorf("c13 schema %s rejected: %v %s", it.Name, err, p)
@@ -282,4 +331,76 @@ func c13Drive(args []string) int {
 	return 0
 }
 
-func init() { cmds["c13-drive"] = c13Drive }
+// c13-replay <cases.ndjson>: the (declaration tree, record) cases TLC emits from MC_Eval - the spaces in which Eval.tla's
+// cached evaluator was checked against the cache-free one (identical declarations at anchoring and non-anchoring
+// positions, computed xpaths that fail next to a declaration with the same text, calls differing in ignore_error only,
+// typed user functions) - each run on the real Transform with every cache off and with every cache on.
+func c13Replay(args []string) int {
+	defer restoreCacheDefaults()
+	sum := newSummary()
+	off := cacheConfig{Pool: false, TCache: false, JS: "off", XPath: "cap1"}
+	on := cacheConfig{Pool: true, TCache: true, JS: "on", XPath: "default"}
+	type cached struct {
+		sch omniparser.Schema
+		ok  bool
+	}
+	schemas := map[string]*cached{}
+	nviol := 0
+	err := readLines(args[0], func(line []byte) error {
+		var c c02Case
+		if e := json.Unmarshal(line, &c); e != nil {
+			return e
+		}
+		inputs := map[string]string{"xml": c.D.renderXML()}
+		if c.D.jsonOK(0) {
+			inputs["json"] = c.D.renderJSON()
+		}
+		for _, format := range []string{"xml", "json"} {
+			in, ok := inputs[format]
+			if !ok {
+				continue
+			}
+			for vi, o := range []renderOpts{{}, {templates: true}} {
+				ck := fmt.Sprint(format, vi, hashOf(c.T))
+				ce := schemas[ck]
+				if ce == nil {
+					if len(schemas) > 50000 {
+						schemas = map[string]*cached{}
+					}
+					sch, e, p := newSchema([]byte(renderEvalSchema(&c.T, format, o)), evalExtensions(&c.T)...)
+					ce = &cached{sch, e == nil && p == ""}
+					schemas[ck] = ce
+				}
+				if !ce.ok {
+					continue // (C02 reports a well-formed tree that is rejected)
+				}
+				var fps [2][]string
+				for k, cfg := range []cacheConfig{off, on} {
+					applyCacheConfig(cfg)
+					fps[k] = fpAll(runTranscript(ce.sch, strings.NewReader(in), RunOpts{MaxReads: 4, Ext: evalExt}), "full")
+				}
+				sum.eval(c.Nt, M{"f": format, "v": vi})
+				if fmt.Sprint(fps[0]) != fmt.Sprint(fps[1]) {
+					nviol++
+					if nviol <= 20 {
+						violation("C13", "cache-visible:eval-case", fmt.Sprintf("%s input %q: all caches off gives %v, all caches on gives %v", format, in, fps[0], fps[1]),
+							M{"format": format, "schema": renderEvalSchema(&c.T, format, o), "input": in, "all_off": fps[0], "all_on": fps[1]})
+					}
+				}
+			}
+		}
+		return nil
+	})
+	if err != nil {
+		fmt.Println("error:", err)
+		return 3
+	}
+	sum.inc("mismatches", nviol)
+	sum.done()
+	return 0
+}
+
+func init() {
+	cmds["c13-drive"] = c13Drive
+	cmds["c13-replay"] = c13Replay
+}
